@@ -1202,9 +1202,9 @@ pub fn generate(prop: &str, out: &mut Out, thorough: bool, seed: u64) -> bool {
     let encs: Vec<&'static Encoding> = ALL.to_vec();
     // every BOM life-cycle state, systematically: C10 is about them, C19 and C07 answer queries in them
     // (e.g. ConvertingWithPendingBB is reached only through EF BB <non-BF> with a stop in between)
-    if prop == "C10" || prop == "C19" || prop == "C07" {
-        gen_bom_universe(out, &mut rng, &encs, &props, thorough);
-    }
+    // (every decoder property runs it: the life-cycle states are where state-specific defects hide, and
+    // reaching them by chance made detection depend on the seed)
+    gen_bom_universe(out, &mut rng, &encs, &props, thorough && (prop == "C10" || prop == "C19" || prop == "C07"));
     if prop == "C05" || prop == "C06" {
         gen_str_sinks(out, &mut rng, &encs, if thorough { 1500 } else { 120 });
     }
